@@ -83,5 +83,13 @@ CLAIMS = {
         "note": TRUST + "vendor Lua table read lexically",
         "technique": "byte-sequence layout domain + constructor resolution + constant folding (static analysis)",
     },
+    "C10": {
+        "text": "SetStateCommand.tobytes is interpreted abstractly in a bit-field / linear-form domain over the declared domains of all "
+                "16 settable fields at once (guard regions for the set-point and half-degree flag are abstract elements); the vendor "
+                "reference decode applied to the abstract 24-byte body returns every source field (left inverse ⇒ distinct states give "
+                "distinct bodies); no bit collisions, no lossy masks, every byte ≤ 255. All 62 set-points × modes × flags are one abstract state.",
+        "note": TRUST + "transcription of the vendor layout rows (each cites its Lua line, constants re-read from the Lua)",
+        "technique": "abstract interpretation in a bit-field/interval/affine domain with trace partitioning (static analysis)",
+    },
 }
 NOT_APPLICABLE = {}
